@@ -212,6 +212,9 @@ func c04Unit(scheme string, n int) core.Unit {
 					}
 				}
 			}
+			if pi >= 2 && n > 6 && scheme != "pypi" {
+				continue // the letter-case pools: up to 6 constraints
+			}
 			for _, ops := range shapes {
 				vs := make([]string, n)
 				for i := range vs {
@@ -292,6 +295,6 @@ func init() {
 			}
 		},
 		Rule:        "for each of the 11 schemes: every comparator sequence of length 1..n (quick 4, thorough 8) over {< <= > >= = !=} whose bounds alternate as the VERS spec requires, instantiated with increasing versions from 2-3 pools per scheme (plain releases; pre-releases and scheme-specific spellings), evaluated on every pool member up to just above the last bound (each bound itself, a version strictly between each neighbouring pair, one below, one above); plus vers:<scheme>/*. Expected value from the spec's interval semantics over the scheme's own Compare; pypi pre-/dev-release probes are expected excluded unless a constraint names a pre-release. distinct_nontrivial = evaluations whose expected value is true.",
-		Assumptions: []string{"constraint versions are taken from fixed increasing pools (validated against the scheme's Compare on every run), not from all versions", "quick stops at 4 constraints; thorough reaches the 8 the property names"},
+		Assumptions: []string{"constraint versions are taken from fixed increasing pools (validated against the scheme's Compare on every run), not from all versions", "quick stops at 4 constraints; thorough reaches the 8 the property names (the letter-case pools stop at 6)"},
 	})
 }
